@@ -444,6 +444,7 @@ import mir_jobs_assert  # noqa: E402,F401  (registers the manifest resource cons
 import mir_jobs_txval   # noqa: E402,F401  (registers the transaction header validation jobs)
 import mir_jobs_limits  # noqa: E402,F401  (registers the limits module jobs)
 import mir_jobs_auth    # noqa: E402,F401  (registers the access rule evaluation jobs)
+import mir_jobs_subintent    # noqa: E402,F401  (registers the subintent structure job)
 
 
 def _index():
